@@ -420,8 +420,10 @@ def c13(ctx):
     r = cli_monitor.run_names(b3sum_bin("asm", "release"), exe_r, ctx.seed, ctx.thorough)
     for sig, detail in r["violations"]:
         ctx.add_violation(sig, "[c13/cli-names] " + detail, {"kind": "cmd", "cmd": ["./check", "C13", "--tier", ctx.tier], "cwd": core.VERIF})
+    for inc in r.get("inconclusive", []):
+        ctx.note_inconclusive("c13/cli-names: " + inc)
     ctx.add_observed("c13/cli-names", r["evaluations"], r["distinct"], r["samples"],
-                     "real files with hostile names (spaces, double spaces, ') = ', 'BLAKE3 (' prefixes, backslashes, CR, LF, invalid UTF-8, U+FFFD) hashed by the real b3sum binary in plain and --tag form; every printed line is parsed in-process (must return the original name bytes and the file's hash, or be rejected iff the name is unrepresentable) and the whole output is fed to the real b3sum --check; distinct = distinct (form, name feature, representable) classes",
+                     "real files with hostile names (spaces, double spaces, ') = ', 'BLAKE3 (' prefixes, backslashes, CR, LF, invalid UTF-8, U+FFFD; systematically: the first '  ' / ') = ' at every offset 0..79; a 4095-byte path made only of characters that need escaping) hashed by the real b3sum binary in plain and --tag form; every printed line is parsed in-process (must return the original name bytes and the file's hash, or be rejected iff the name is unrepresentable) and the whole output is fed to the real b3sum --check; distinct = distinct (form, name feature, representable) classes",
                      {"classes": r["classes"]})
 
 
